@@ -47,6 +47,10 @@ MUTANTS = {
     'c03-collapse-vertex-props-disturbed': ('C03', TK, '    delete_vertex(from_vh);\n\n    for (const auto &n: new_cells) {', '    swap_property_elements(from_vh, to_vh);\n    delete_vertex(from_vh);\n\n    for (const auto &n: new_cells) {', 'collapse-1'),
     # the seeded change seeded/C03c_property_copy_moves_source (verified with bin/seedtest.py: CAUGHT, C03:SplitPropsFollow:C)
     'c03-copy-moves-source': ('C03', 'src/OpenVolumeMesh/Core/Properties/PropertyStorageT.hh', 'data_[_dst_idx] = data_[_src_idx];', 'data_[_dst_idx] = std::move(data_[_src_idx]);', 'splits'),
+    # C05 stage (protocol of the specialised circulators): python3 bin/tethex_check.py C05
+    'c05-csc-orientation-guard': ('C05', HI, '_mesh->orientation(*hf_it, _ref_h) != _mesh->opposite_orientation(_orthDir)) {', '_mesh->orientation(*hf_it, _ref_h) != _mesh->opposite_orientation(_mesh->orientation(*hf_it, _ref_h))) {', 'hex'),
+    'c05-tv-backward-keeps-lap': ('C05', TI, 'cur_index_ = vertices_.size() - 1;\n        --lap_;', 'cur_index_ = vertices_.size() - 1;', 'tet'),
+    'c05-hv-forward-never-ends': ('C05', HI, 'HexVertexIter& HexVertexIter::operator++() {\n\n    ++cur_index_;\n    if(cur_index_ == vertices_.size()) {\n        cur_index_ = 0;\n        ++lap_;\n        if (lap_ >= max_laps_)', 'HexVertexIter& HexVertexIter::operator++() {\n\n    ++cur_index_;\n    if(cur_index_ == vertices_.size()) {\n        cur_index_ = 0;\n        ++lap_;\n        if (lap_ > max_laps_)', 'hex'),
     'tet-label-getlabel-halfedge': ('C15', TTC, 'return opposite(hel);', 'return hel;', 'labels'),
     'tet-label-constructor-cd': ('C15', TTC, 'hfh<ACD>() = cur_hfh;\n                heh_[CD] = *heh_it;', 'hfh<ACD>() = cur_hfh;\n                heh_[CD] = heh;', 'labels'),
     'tet-triangle-start': ('C15', TRC, 'if (idx == 0 && _mesh.from_vertex_handle(heh) != _a) {', 'if (idx == 0 && _mesh.to_vertex_handle(heh) != _a) {', 'labels'),
